@@ -4,14 +4,16 @@ package main
 // a panic.
 //
 // Case line:   writes <cfg> <pathhex> <line> <srchex> <envenc>
-// Result line: ok <calls>                                  fault-free FRender succeeded
-//              err <kind> <line> <pathhex> <cause> <calls> the render failed by itself after <calls>
+// Result line: ok <calls> <flocs>                                  fault-free FRender succeeded
+//              err <kind> <line> <pathhex> <cause> <calls> <flocs> the render failed by itself after <calls>
 //              err <kind> <line> <pathhex> <cause>         the source does not parse
 //              panic
 // <calls> = the underlying Write calls of `tpl.FRender(recordingWriter, env)` in order, each
 // `w<hex>` (an EMPTY call is `w`), comma-separated; `-` = no call. The Lean driver answers the
 // same line from the interaction tree of the model (`Prog.calls`), so the sequences are compared
-// call by call.
+// call by call. <flocs> = for every explored call index k, where the error of the run whose writer fails
+// (once, accepting nothing) at call k is located: `<line>p` (the error names a path) or `<line>-`,
+// comma-separated, `-` = no call; the model answers with the error its tree ends with when call k fails.
 //
 // The ORACLE is independent of the model. For the template parsed at (path, line) and rendered
 // with FRender, and again for Engine.ParseAndFRender of the same source (whose fault-free calls are
@@ -270,8 +272,28 @@ func (fc faultCase) baseline(en faultEntry) (res string, calls [][]byte, parseEr
 	return res, rw.calls, parseErr, panicMsg
 }
 
-// explore runs every fault plan of one entry and evaluates the oracle.
-func (fc faultCase) explore(r *Run, cl string, en faultEntry, base string, calls [][]byte) {
+// faultLoc is where the error of one single-fault run is located: `<line>p` (it names a path) or
+// `<line>-`; `!` = no usable SourceError. The model answers the same from its interaction tree.
+func faultLoc(se liquid.SourceError) string {
+	if se == nil || sourceErrorProblem(se) != "" {
+		return "!"
+	}
+	if se.Path() != "" {
+		return fmt.Sprintf("%dp", se.LineNumber())
+	}
+	return fmt.Sprintf("%d-", se.LineNumber())
+}
+
+func showFaultLocs(locs []string) string {
+	if len(locs) == 0 {
+		return "-"
+	}
+	return strings.Join(locs, ",")
+}
+
+// explore runs every fault plan of one entry and evaluates the oracle. It returns, for every explored
+// call index, where the error of the run that fails (once, accepting nothing) at that call is located.
+func (fc faultCase) explore(r *Run, cl string, en faultEntry, base string, calls [][]byte) (locs []string) {
 	full := bytes.Join(calls, nil)
 	n := len(calls)
 	baseOK := strings.HasPrefix(base, "ok ")
@@ -295,7 +317,8 @@ func (fc faultCase) explore(r *Run, cl string, en faultEntry, base string, calls
 		if k == n {
 			plans = plans[:1] // the writer is never asked to fail: the run must repeat the fault-free one
 		}
-		for _, plan := range plans {
+		locK := ""
+		for pi, plan := range plans {
 			fw := &faultyWriter{plan: plan, err: newFaultErr(k)}
 			var se liquid.SourceError
 			res, pmsg := protect(func() string {
@@ -305,7 +328,19 @@ func (fc faultCase) explore(r *Run, cl string, en faultEntry, base string, calls
 			r.Count("fault-runs")
 			if res == "panic" {
 				viol("panic", plan, pmsg)
+				if pi == 0 && k < n {
+					locK = "!"
+				}
 				continue
+			}
+			if k < n && !plan.short {
+				if pi == 0 {
+					locK = faultLoc(se)
+				} else if l := faultLoc(se); l != locK {
+					// the location must not depend on how much the failing call accepted or on later calls
+					r.Count("fault-loc-differs-between-plans")
+					r.Notef("fault-loc-differs-between-plans", "%s: entry=%s %s: %s, first plan: %s", short(cl, 300), en.name, plan, l, locK)
+				}
 			}
 			if k == n {
 				if fw.ncalls != n || (se == nil) != baseOK {
@@ -349,7 +384,11 @@ func (fc faultCase) explore(r *Run, cl string, en faultEntry, base string, calls
 				viol("accepted-not-a-prefix", plan, fmt.Sprintf("accepted %q, fault-free output %q", short(string(fw.accepted), 200), short(string(full), 200)))
 			}
 		}
+		if k < n {
+			locs = append(locs, locK)
+		}
 	}
+	return locs
 }
 
 // run executes the case: FRender of the template parsed at (path, line), which is what the result
@@ -402,11 +441,15 @@ func (fc faultCase) run(r *Run, class string) (resA, resB string) {
 				break
 			}
 		}
-		fc.explore(r, cl, entryA, resA, callsA)
+		resA += " " + showFaultLocs(fc.explore(r, cl, entryA, resA, callsA))
 		var callsB [][]byte
-		resB, callsB, _, _ = fc.baseline(entryB)
+		var parseErrB bool
+		resB, callsB, parseErrB, _ = fc.baseline(entryB)
 		if resB != "panic" {
-			fc.explore(r, cl, entryB, resB, callsB)
+			locsB := fc.explore(r, cl, entryB, resB, callsB)
+			if !parseErrB {
+				resB += " " + showFaultLocs(locsB)
+			}
 		}
 	}
 	return resA, resB
